@@ -54,7 +54,8 @@ func c17Conservation(c *Ctx, add *ssa.Function) {
 	var dels []*ssa.Call
 	var adds []*ssa.Call
 	var seqStores []*ssa.Store
-	eachInstr(add, func(i ssa.Instruction) {
+	// the release loop may live in a helper method of the same package (flush, drain, …)
+	eachInstrRegion(add, func(i ssa.Instruction) {
 		switch x := i.(type) {
 		case *ssa.MapUpdate:
 			if isBuf(x.Map) {
@@ -86,11 +87,31 @@ func c17Conservation(c *Ctx, add *ssa.Function) {
 	in, lk, del, sa, ss := ins[0], lookups[0], dels[0], adds[0], seqStores[0]
 	ok := true
 	why := ""
+	if in.Parent() != add {
+		ok, why = false, "the point is not buffered by add itself"
+	}
+	if rel := lk.Parent(); ok && rel != add {
+		// add must hand over to the release helper after buffering, whenever it does not return "buffered"
+		if del.Parent() != rel || sa.Parent() != rel || ss.Parent() != rel {
+			ok, why = false, "lookup, delete, add and increment are spread over several functions"
+		} else {
+			called := false
+			eachInstr(add, func(i ssa.Instruction) {
+				if ci, isCI := i.(ssa.CallInstruction); isCI && ci.Common().StaticCallee() == rel && instrDominates(in, i) {
+					called = true
+				}
+			})
+			if !called {
+				ok, why = false, "add never runs the release loop after buffering"
+			}
+		}
+		c.Saw("function " + shortFn(rel))
+	}
 	// insert: key is r.Seq, unconditional
 	if !strings.HasSuffix(describeVal(in.Key), "arg0.Seq") && !flowsFrom(in.Key, func(v ssa.Value) bool { return describeVal(v) == "arg0.Seq" }) {
 		ok, why = false, "the point is buffered under something other than the result's sequence number"
 	}
-	if set := explore(add.Blocks[0].Instrs[0], true, func(i ssa.Instruction) bool { return i == ssa.Instruction(in) }); len(returnsIn(set)) > 0 {
+	if set := explore(add.Blocks[0].Instrs[0], true, func(i ssa.Instruction) bool { return i == ssa.Instruction(in) }); ok && len(returnsIn(set)) > 0 {
 		ok, why = false, "a result can be dropped before it is buffered"
 	}
 	// lookup/delete keyed by the expected sequence number
@@ -194,7 +215,7 @@ func c17Units(c *Ctx, add *ssa.Function) {
 	}
 	c.Saw("function " + shortFn(returnedClosure(iter)))
 	var div, mul int64
-	eachInstr(add, func(i ssa.Instruction) {
+	eachInstrRegion(add, func(i ssa.Instruction) {
 		if bo, ok := i.(*ssa.BinOp); ok && bo.Op == token.QUO {
 			if k, isK := constInt(bo.Y); isK {
 				if flowsFrom(bo.X, func(v ssa.Value) bool {
@@ -289,7 +310,21 @@ func c17Data(c *Ctx) {
 		} else {
 			// stores pt[0] = p.X and pt[i+1] = p.Y
 			xOK, yOK := false, false
-			eachInstr(fn, func(i ssa.Instruction) {
+			// the row may be built by a helper (newRow(size, col, x, y)): index and value are
+			// followed through the parameters of a helper with a single call site
+			fieldOf := func(v ssa.Value) string {
+				v = throughParam(c, v)
+				if fld, isF := v.(*ssa.Field); isF {
+					return fieldName(fld.X.Type(), fld.Field)
+				}
+				if ld, isL := isLoad(v); isL {
+					if fa, isFA := ld.X.(*ssa.FieldAddr); isFA {
+						return fieldName(fa.X.Type(), fa.Field)
+					}
+				}
+				return ""
+			}
+			eachInstrRegion(fn, func(i ssa.Instruction) {
 				st, isSt := i.(*ssa.Store)
 				if !isSt {
 					return
@@ -298,26 +333,12 @@ func c17Data(c *Ctx) {
 				if !isIA {
 					return
 				}
-				fld, isF := st.Val.(*ssa.Field)
-				if !isF {
-					if ld, isL := isLoad(st.Val); isL {
-						if fa, isFA := ld.X.(*ssa.FieldAddr); isFA {
-							name := fieldName(fa.X.Type(), fa.Field)
-							if z, isZ := constInt(ia.Index); isZ && z == 0 && name == "X" {
-								xOK = true
-							}
-							if bo, isBo := ia.Index.(*ssa.BinOp); isBo && bo.Op == token.ADD && name == "Y" && rangeIndexValue(bo.X) && isConstOne(bo.Y) {
-								yOK = true
-							}
-						}
-					}
-					return
-				}
-				name := fieldName(fld.X.Type(), fld.Field)
-				if z, isZ := constInt(ia.Index); isZ && z == 0 && name == "X" {
+				name := fieldOf(st.Val)
+				idx := throughParam(c, ia.Index)
+				if z, isZ := constInt(idx); isZ && z == 0 && name == "X" {
 					xOK = true
 				}
-				if bo, isBo := ia.Index.(*ssa.BinOp); isBo && bo.Op == token.ADD && name == "Y" && rangeIndexValue(bo.X) && isConstOne(bo.Y) {
+				if bo, isBo := idx.(*ssa.BinOp); isBo && bo.Op == token.ADD && name == "Y" && rangeIndexValue(bo.X) && isConstOne(bo.Y) {
 					yOK = true
 				}
 			})
